@@ -14,7 +14,10 @@ func verifMem() (*MemoryInstance, uint64) {
 	pages := verifrt.U32("pages")
 	verifrt.Assume(pages <= 65536)
 	size := uint64(pages) << 16
-	return &MemoryInstance{Buffer: verifrt.Bytes("mem", size), Min: 0, Cap: pages, Max: 65536}, size
+	// the buffer may have spare capacity (capacity-from-max, shared memories, earlier growth)
+	capPages := verifrt.U32("capPages")
+	verifrt.Assume(capPages >= pages && capPages <= 65536)
+	return &MemoryInstance{Buffer: verifrt.Bytes("mem", uint64(capPages)<<16)[:size], Min: 0, Cap: capPages, Max: 65536}, size
 }
 
 // VerifC14_HostRead: Read(off,n) succeeds iff off+n <= size, never panics, returns the addressed bytes.
@@ -25,6 +28,7 @@ func VerifC14_HostRead() {
 	verifrt.Assert(ok == (uint64(off)+uint64(n) <= size), "Read ok iff offset+length within size")
 	if ok {
 		verifrt.Assert(uint32(len(b)) == n, "Read returns n bytes")
+		verifrt.Assert(uint64(off)+uint64(cap(b)) <= size, "the returned view cannot reach beyond the current memory size (no spare capacity is exposed)")
 		if n > 0 {
 			i := verifrt.U32("i")
 			verifrt.Assume(i < n)
